@@ -230,6 +230,74 @@ def reference_pairs(M, rec, rng, g, n_cases):
                 break
 
 
+def history_pairs(M, rec, rng, g, n_cases):
+    """The options of an EARLIER step must not leak into a later one: the same network objects are
+    stepped with some initial clamps on, then stepped again with all options off and a PARTIAL
+    init_conditions entry (only a control given numerically, as the repository's MPC examples do) and
+    compiled; the function must equal that of a fresh network stepped once in the second way."""
+    import casadi as cs
+
+    NE, CE = drive.engines(M)
+    for it in range(n_cases):
+        desc = g.all_kinds_network() if it % 2 == 0 else g.network()[1]
+        ctrl = {"main": "v_ctrl", "ramp": "r", "simple": "q"}
+        partial_ids = [o["id"] for o in desc["origins"] if o["kind"] != "ideal"] + [l["id"] for l in desc["links"] if l.get("vsl")]
+        if not partial_ids:
+            continue
+        pars = g.pars()
+        kw = drive.step_pars(pars)
+        st = ("SX", "MX")[it % 2]
+        ops = D.random_ops(desc, rng)
+        chosen = rng.sample(partial_ids, rng.randint(1, min(2, len(partial_ids))))
+
+        def partial(built):
+            ic = {}
+            for eid in chosen:
+                o = next((x for x in desc["origins"] if x["id"] == eid), None)
+                if o is not None:
+                    val = {"main": 250.0, "ramp": 1.0, "simple": 1500.0}[o["kind"]]
+                    ic[built.el(eid)] = {ctrl[o["kind"]]: val}
+                else:
+                    l = next(x for x in desc["links"] if x["id"] == eid)
+                    ic[built.el(eid)] = {"v_ctrl": cs.DM([200.0] * len(l["vsl"]))}
+            return ic
+
+        on = {o_: True for o_ in ("positive_init_speed", "positive_init_density", "positive_init_queue") if rng.random() < 0.7}
+        if not on:
+            on = {"positive_init_queue": True, "positive_init_density": True}
+        try:
+            a = D.build(M, desc, ops)
+            ea = CE(st)
+            a.net.step(engine=ea, init_conditions=partial(a), **on, **kw)      # earlier step, clamps on
+            a.net.step(engine=ea, init_conditions=partial(a), **kw)            # later step, all options off
+            Fa = ea.to_function(a.net, compact=2, **kw)
+            b = D.build(M, desc, ops)
+            eb = CE(st)
+            b.net.step(engine=eb, init_conditions=partial(b), **kw)
+            Fb = eb.to_function(b.net, compact=2, **kw)
+        except Exception as e:
+            rec.count("history_pairs_failed")
+            rec.seen("history_pairs_failed", repr(e)[:120])
+            continue
+        sa = [Fa.size1_in(i) for i in range(Fa.n_in())]
+        sb = [Fb.size1_in(i) for i in range(Fb.n_in())]
+        rec.count("history_pairs")
+        ctx = {"desc": desc, "pars": pars, "sym_type": st, "earlier_options": sorted(on), "partial_init_conditions_for": chosen}
+        if sa != sb:
+            rec.violation(f"{PROP}:{st}: a function compiled after an earlier step with initial clamps has other arguments than that of a fresh network", ctx)
+            continue
+        for _pt in range(3):
+            args = [cs.DM([rng.uniform(-30.0, 120.0) for _ in range(n_)]) for n_ in sa]
+            ya = np.asarray(Fa(*args), dtype=float).ravel()
+            yb = np.asarray(Fb(*args), dtype=float).ravel()
+            rec.count("scalars_compared", len(ya))
+            ok_ = np.isclose(ya, yb, rtol=1e-12, atol=1e-12) | (np.isnan(ya) & np.isnan(yb))
+            if not ok_.all():
+                rec.violation(f"{PROP}:{st}: with all options off the step still clamps (options of an earlier step on the same objects leak into a later step)",
+                              dict(ctx, index=int(np.argmin(ok_)), after_history=float(ya[np.argmin(ok_)]), fresh=float(yb[np.argmin(ok_)])))
+                break
+
+
 def casadi_pairs(M, rec, rng, g, desc, pars, st, combo_list):
     symvals = O.SymVals(random.Random(1))
     _, v0 = g.values(desc, allow_inf=False)
@@ -295,6 +363,7 @@ def run(M, rec, tier, seed, k, n):
         cl = allc if full else rng.sample(allc, 6)
         casadi_pairs(M, rec, rng, g, desc, pars, st, cl)
     reference_pairs(M, rec, rng, g, 14 if tier == "quick" else 90)
+    history_pairs(M, rec, rng, g, 16 if tier == "quick" else 120)
 
 
 def finish(M, rec, write=True):
@@ -302,12 +371,13 @@ def finish(M, rec, write=True):
         for e in ("numpy", "SX", "MX"):
             rec.gate(rec.n_seen(f"combos_{e}") == 64, f"not all 64 option combinations exercised on {e} ({rec.n_seen(f'combos_{e}')})")
         rec.gate(rec.counters.get("scalars_compared", 0) > 0, "nothing compared")
+        rec.gate(rec.counters.get("history_pairs", 0) > 0, f"no history pair evaluated: {sorted(rec.cover.get('history_pairs_failed', []))[:2]}")
         for q_ in ("v", "rho", "w"):
             rec.gate(q_ in rec.cover.get("negative_plain_quantities", set()),
                      f"no case whose plain next {q_} is negative (nothing for the clamp to act on)")
     rec.extra["exhaustive_subspaces"] = ["all 64 combinations of the six positivity options on every engine"]
     return rec.finish(
-        ["pairs_numpy", "pairs_casadi_compiled", "pairs_casadi_own_eval", "pairs_reference"],
+        ["pairs_numpy", "pairs_casadi_compiled", "pairs_casadi_own_eval", "pairs_reference", "history_pairs"],
         ["combos_numpy", "combos_SX", "combos_MX"],
         rule="networks with all element kinds / random shape classes; inputs with ~30 % negative densities, speeds and queues; all 64 "
         "combinations of the six positivity options on NumPy (bitwise) and on SX/MX (via to_function at a random compactness level and via "
